@@ -30,55 +30,25 @@ Proof.
   destruct Hl as [Eo _]. left. rewrite Eo, (align_up_0 _ Hok). reflexivity.
 Qed.
 
-Lemma flatten_image_total h h' dst : wf_holder h -> flatten h = (EOk, h') -> code_size h' <= dst ->
-  forall c, 0 <= c < code_size h' -> exists s, In s h' /\ soff s <= c < wend true dst s /\ wend true dst s = soff s + real_size s.
+Lemma image_total_generic l dst : Forall wf_sec l -> laid_ne 0 l -> tight l -> code_size l <= dst ->
+  forall c, 0 <= c < code_size l -> exists s, In s l /\ soff s <= c < wend true dst s /\ wend true dst s = soff s + real_size s.
 Proof.
-  intros Hwf E Hd c Hc. destruct (flatten_flattened h h' Hwf E) as [_ Eh Hwf' Hl Hlne Hend _ _]. pose proof W64_pos.
-  destruct (extend_tight (assign 0 h) 0 (assign_wf h 0 Hwf) ltac:(lia) Hl) as [Ht _]. rewrite <- Eh in Ht.
-  assert (Hcs : code_size h' = lend_ne 0 h').
-  { unfold code_size. rewrite (cs_walk_laid_ne h' 0 Hwf' ltac:(lia) Hlne). reflexivity. }
-  destruct (cover_chain h' 0 Hwf' Hlne Ht (fne_off_first_zero h' Hwf' Hlne) c ltac:(lia)) as [s [Hin [Hne Hr]]].
+  intros Hwf' Hlne Ht Hd c Hc. pose proof W64_pos.
+  assert (Hcs : code_size l = lend_ne 0 l).
+  { unfold code_size. rewrite (cs_walk_laid_ne l 0 Hwf' ltac:(lia) Hlne). reflexivity. }
+  destruct (cover_chain l 0 Hwf' Hlne Ht (fne_off_first_zero l Hwf' Hlne) c ltac:(lia)) as [s [Hin [Hne Hr]]].
   exists s. split; [assumption|].
-  destruct (code_size_bounds_all h h' Hwf E s Hin) as [H0 [H1 _]].
+  destruct (laid_ne_in_ge 0 l s Hwf' Hlne Hin Hne) as [H0 H1].
   rewrite Forall_forall in Hwf'. destruct (Hwf' s Hin) as [Hv [Hb _]].
   assert (Ew : wend true dst s = soff s + real_size s).
   { unfold wend, pad_len, real_size in *. cbn [andb]. destruct (Z.ltb_spec (sbsize s) (svsize s)); lia. }
   rewrite Ew. split; [assumption|reflexivity].
 Qed.
 
-(* JitRuntime::_add (model jit_add): the installed image is completely determined by the sections — every cell below the
-   final size is a section's byte or a zero of its virtual tail, whatever the memory held before *)
-Lemma jit_image_determined h fill e n img h1 : wf_holder h -> data_len_ok h -> jit_add h fill = (e, n, img, h1) ->
-  (e = EOk \/ e = ENoCodeGenerated \/ e = ETooLarge) /\
-  (e = ETooLarge <-> pass1 0 h = false) /\
-  (e = ENoCodeGenerated -> flatten h = (EOk, h1) /\ code_size h1 = 0) /\
-  (e = EOk -> flatten h = (EOk, h1) /\ n = code_size h1 /\ 0 < n /\ Z.of_nat (length img) = n /\
-     forall c, 0 <= c < n -> exists s, In s h1 /\
-       ((soff s <= c < soff s + sbsize s /\ cell img c = cell (sdata s) (c - soff s)) \/
-        (soff s + sbsize s <= c < soff s + real_size s /\ cell img c = 0))).
+Lemma flatten_image_total h h' dst : wf_holder h -> flatten_mid h = (EOk, h') -> code_size h' <= dst ->
+  forall c, 0 <= c < code_size h' -> exists s, In s h' /\ soff s <= c < wend true dst s /\ wend true dst s = soff s + real_size s.
 Proof.
-  intros Hwf Hdl E. unfold jit_add in E. unfold flatten in *. destruct (pass1 0 h) eqn:Hp.
-  - set (hf := fst (extend (assign 0 h))) in *.
-    assert (Ef : flatten h = (EOk, hf)) by (unfold flatten; rewrite Hp; reflexivity).
-    destruct (Z.eqb_spec (code_size hf) 0) as [Z0|Zn].
-    + inversion E; subst. split; [auto|]. split; [split; intros; discriminate|]. split; [intros _; split; [reflexivity|assumption]|]. intros; discriminate.
-    + inversion E; subst e n img h1; clear E. split; [auto|]. split; [split; intros; discriminate|]. split; [intros; discriminate|].
-      intros _. split; [reflexivity|]. split; [reflexivity|].
-      destruct (flatten_flattened h hf Hwf Ef) as [_ _ Hwf' _ Hlne _ _ _]. pose proof W64_pos.
-      assert (Hcs0 : 0 <= code_size hf).
-      { unfold code_size. rewrite (cs_walk_laid_ne hf 0 Hwf' ltac:(lia) Hlne). apply lend_ne_ge; assumption. }
-      split; [lia|].
-      set (n := code_size hf) in *. set (mem := repeat fill (Z.to_nat n)).
-      assert (Hlen : Z.of_nat (length mem) = n) by (unfold mem; rewrite repeat_length; lia).
-      pose proof (copy_flat_err hf mem n true false) as Herr.
-      rewrite (copy_accepts_code_size h hf n Hwf Ef ltac:(lia)) in Herr.
-      destruct (copy_flat hf mem n true false) as [er img] eqn:Ec. cbn [fst snd] in *. subst er.
-      destruct (flatten_copy_exact h hf mem n true false img Hwf Hdl Ef ltac:(lia) Ec) as [HL [_ [HD [HZ _]]]].
-      split; [lia|]. intros c Hc.
-      destruct (flatten_image_total h hf n Hwf Ef ltac:(lia) c Hc) as [s [Hin [Hr Ew]]].
-      exists s. split; [assumption|]. rewrite Ew in Hr.
-      destruct (Z_lt_le_dec c (soff s + sbsize s)) as [Hd|Hz].
-      * left. split; [lia|]. replace c with (soff s + (c - soff s)) at 1 by ring. apply HD; [assumption|lia].
-      * right. split; [lia|]. apply (HZ s Hin). rewrite Ew. lia.
-  - inversion E; subst. split; [auto|]. split; [split; reflexivity|]. split; intros; discriminate.
+  intros Hwf E. destruct (flatten_flattened h h' Hwf E) as [_ _ Hwf' _ Hlne _ _ _].
+  apply image_total_generic; [assumption|assumption|apply (flatten_mid_tight h h' Hwf E)].
 Qed.
+
